@@ -44,3 +44,57 @@ LEAN_EXPORT lean_obj_res mdsort_regex(b_lean_obj_arg pat, b_lean_obj_arg subj, u
   free(m); regfree(&re); free(p); free(s);
   return arr;
 }
+
+/* strptime with the given format: returns #[] on failure, else
+ * [consumed, year(+1900), mon, mday, hour, min, sec] (all as uint32, year offset by 0). */
+LEAN_EXPORT lean_obj_res mdsort_strptime(b_lean_obj_arg fmt, b_lean_obj_arg str) {
+  size_t fl = lean_sarray_size(fmt), sl = lean_sarray_size(str);
+  char *f = malloc(fl + 1), *s = malloc(sl + 1);
+  memcpy(f, lean_sarray_cptr(fmt), fl); f[fl] = 0;
+  memcpy(s, lean_sarray_cptr(str), sl); s[sl] = 0;
+  struct tm tm;
+  memset(&tm, 0, sizeof(tm));
+  const char *end = strptime(s, f, &tm);
+  lean_object *arr;
+  if (end == NULL) {
+    arr = lean_alloc_array(0, 0);
+  } else {
+    arr = lean_alloc_array(7, 7);
+    lean_array_set_core(arr, 0, lean_box_uint32((uint32_t)(end - s)));
+    lean_array_set_core(arr, 1, lean_box_uint32((uint32_t)(tm.tm_year + 1900)));
+    lean_array_set_core(arr, 2, lean_box_uint32((uint32_t)tm.tm_mon));
+    lean_array_set_core(arr, 3, lean_box_uint32((uint32_t)tm.tm_mday));
+    lean_array_set_core(arr, 4, lean_box_uint32((uint32_t)tm.tm_hour));
+    lean_array_set_core(arr, 5, lean_box_uint32((uint32_t)tm.tm_min));
+    lean_array_set_core(arr, 6, lean_box_uint32((uint32_t)tm.tm_sec));
+  }
+  free(f); free(s);
+  return arr;
+}
+
+/* tzabbr: gmtoff of zone `name` at instant `now` (setenv TZ; tzset; localtime). Returns offset + 2^31. */
+LEAN_EXPORT uint64_t mdsort_zone(b_lean_obj_arg name, uint64_t now) {
+  size_t nl = lean_sarray_size(name);
+  char *n = malloc(nl + 1);
+  memcpy(n, lean_sarray_cptr(name), nl); n[nl] = 0;
+  char *old = getenv("TZ");
+  char *save = old ? strdup(old) : NULL;
+  setenv("TZ", n, 1);
+  tzset();
+  time_t t = (time_t)now;
+  struct tm *tm = localtime(&t);
+  long off = tm ? tm->tm_gmtoff : 0;
+  if (save) { setenv("TZ", save, 1); free(save); } else unsetenv("TZ");
+  tzset();
+  free(n);
+  return (uint64_t)(off + 2147483648L);
+}
+
+/* timegm cross-check */
+LEAN_EXPORT uint64_t mdsort_timegm(uint32_t year, uint32_t mon, uint32_t mday, uint32_t hour, uint32_t min, uint32_t sec) {
+  struct tm tm;
+  memset(&tm, 0, sizeof(tm));
+  tm.tm_year = (int)year - 1900; tm.tm_mon = (int)mon; tm.tm_mday = (int)mday;
+  tm.tm_hour = (int)hour; tm.tm_min = (int)min; tm.tm_sec = (int)sec;
+  return (uint64_t)((int64_t)timegm(&tm) + (1LL << 40));
+}
